@@ -784,7 +784,9 @@ def _t(ctx, label):
 
 
 def run(ctx):
-    ctx.build_with_translator(FILES)
+    from . import c20i
+    # C20I: the sample integrators, the extraction walk and the sigma clip of isophote/integrator.py + sample.py
+    ctx.build_with_translator(FILES, extra_files=c20i.COQ_FILES, extra_obligation_files=['C20I_Properties.v'])
     _t(ctx, 'build')
     quick = ctx.tier == 'quick'
     ctx.level = 'proof'
@@ -1139,6 +1141,10 @@ def run(ctx):
             else:
                 ctx.violation('correspondence:C20_Model.fit_step', 'fitter step differs from the model',
                               {**desc, 'model': model}, found_input=False)
+
+    # ---- integrators / extraction walk / sigma clip (C20I), own PRNG: the stream above is unchanged ------------
+    c20i.run_integrator_correspondence(ctx, 300 if quick else 3000)
+    _t(ctx, 'c20i')
 
 
 def _frame_broken(s):
